@@ -80,6 +80,7 @@ pub fn regen(cx: &Cx, shard: usize, stream: u64, index: u64) -> Option<Value> {
         "C05" => faults::regen_c05(cx, shard, stream, index),
         "C09" => dedup::regen_c09(cx, shard, stream, index),
         "C16" => compressed::regen_c16(cx, shard, stream, index),
+        "C19" => safety::regen_c19(cx, shard, stream, index),
         "C06" => faults::regen_c06(cx, shard, stream, index),
         _ => None,
     }
